@@ -30,3 +30,63 @@ func cmdCallees(args []string) int {
 	}
 	return 0
 }
+
+// cmdBounds <pkg> [Type.method|func] : runs the bounds prover and prints every obligation.
+func cmdBounds(args []string) int {
+	o := parseOpts(args)
+	p := Load(o.repo, "", nil)
+	var fns []*ssa.Function
+	if len(o.rest) == 2 {
+		fns = WithAnons(p.Fn(o.rest[0], o.rest[1]))
+	} else {
+		for _, f := range p.SrcFuncs() {
+			top := EnclosingTop(f)
+			if top.Pkg != nil {
+				if s, _ := shortOf(top.Pkg.Pkg.Path()); s == o.rest[0] {
+					fns = append(fns, f)
+				}
+			} else if obj := originOf(top).Object(); obj != nil && obj.Pkg() != nil {
+				if s, _ := shortOf(obj.Pkg().Path()); s == o.rest[0] {
+					fns = append(fns, f)
+				}
+			}
+		}
+	}
+	np, nu := 0, 0
+	ip := newInterproc(p, false)
+	for _, f := range fns {
+		for _, ob := range ip.proveFunc(f) {
+			st := "PROVED"
+			if !ob.Proved {
+				st = "OPEN  "
+				nu++
+			} else {
+				np++
+			}
+			fmt.Printf("%s %-7s %-28s %s  %s  %s\n", st, ob.Kind, p.Pos(ob.Instr.Pos()), FuncName(f), trunc(ob.Expr, 80), trunc(ob.Detail, 200))
+		}
+	}
+	fmt.Printf("proved=%d open=%d\n", np, nu)
+	return 0
+}
+
+func trunc(s string, n int) string {
+	if len(s) > n {
+		return s[:n] + "…"
+	}
+	return s
+}
+
+var debugHooks = map[string]func(p *Program){}
+
+func cmdDebug(args []string) int {
+	o := parseOpts(args)
+	p := Load(o.repo, "", nil)
+	h := debugHooks[o.rest[0]]
+	if h == nil {
+		fmt.Println("no such hook")
+		return 2
+	}
+	h(p)
+	return 0
+}
